@@ -8,3 +8,4 @@ pub use crate::event::{parse_event, Event, EventHandler, UpdateScreen};
 pub use crate::query::Query;
 pub use crate::global::{current_run_num, mark_new_run};
 pub use crate::selection::Selection;
+pub use crate::ansi::{verif_merge_fragments, ANSIParser, AnsiString};
